@@ -42,6 +42,7 @@ type Property struct {
 	LevelNote   string // MANIFEST level_note
 	Technique   string // MANIFEST technique
 	DesignRef   string
+	Exhaustive  bool // the rules enumerate a finite abstract domain completely (evidence coverage.exhaustive)
 }
 
 // Rule is a repository-specific rule with an instance floor.
